@@ -181,3 +181,23 @@ M("c13-missing-attr", "C13", "flexstack/facilities/local_dynamic_map/dictionary_
   "        except (KeyError, TypeError):\n            return False", "        except (KeyError, TypeError):\n            return True", "object lacking the attribute matches")
 M("c13-tinydb-root", "C13", "flexstack/facilities/local_dynamic_map/tinydb_database.py",
   "        nested_fields = [\"dataObject\"] + attribute.split(\".\")", "        nested_fields = attribute.split(\".\")", "revert of the TinyDB path-root fix")
+
+# ---------------------------------------------------------------- C14
+M("c14-mult", "C14", "flexstack/facilities/local_dynamic_map/ldm_service.py",
+  "                and subscription.subscription_request.multiplicity > len(search_result)", "                and subscription.subscription_request.multiplicity > len(search_result) + 1", "multiplicity off by one")
+M("c14-interval", "C14", "flexstack/facilities/local_dynamic_map/ldm_service.py",
+  "            if notify_time is not None and last_checked + notify_time > current_time:\n                return", "            if notify_time is not None and last_checked + notify_time + notify_time > current_time:\n                return", "notification interval doubled")
+M("c14-no-interval", "C14", "flexstack/facilities/local_dynamic_map/ldm_service.py",
+  "            if notify_time is not None and last_checked + notify_time > current_time:\n                return", "            if False:\n                return", "notification interval ignored")
+M("c14-unsub", "C14", "flexstack/facilities/local_dynamic_map/ldm_service.py",
+  "        for subscription in to_remove:\n            self.remove_subscription(subscription)\n        return bool(to_remove)", "        return bool(to_remove)", "unsubscribe reports success but keeps the subscription")
+M("c14-order", "C14", "flexstack/facilities/local_dynamic_map/ldm_service.py",
+  "                if ordered_sequences:\n                    ordered_search_result = ordered_sequences[0]", "                if ordered_sequences:\n                    ordered_search_result = search_result", "subscription order ignored")
+M("c14-types", "C14", "flexstack/facilities/local_dynamic_map/ldm_service.py",
+  "            subscription.subscription_request.data_object_type,\n            subscription.subscription_request.priority,", "            tuple(range(1, 22)),\n            subscription.subscription_request.priority,", "subscription type selection ignored")
+M("c14-result-code", "C14", "flexstack/facilities/local_dynamic_map/if_ldm_4.py",
+  "                SubscribeDataobjectsResult.INVALID_MULTIPLICITY,", "                SubscribeDataobjectsResult.INVALID_NOTIFICATION_INTERVAL,", "wrong result code for invalid multiplicity")
+M("c14-dereg-revert", "C14", "flexstack/facilities/local_dynamic_map/ldm_service.py",
+  "        for subscription in stale:\n            self.remove_subscription(subscription)\n", "", "revert: subscriptions survive deregistration")
+M("c14-last-shared", "C14", "flexstack/facilities/local_dynamic_map/ldm_service.py",
+  "                return\n            self.last_checked_subscriptions_time[subscription] = current_time\n", "                return\n            for other in self.last_checked_subscriptions_time:\n                self.last_checked_subscriptions_time[other] = current_time\n", "a notification resets the interval of every subscription")
